@@ -178,3 +178,4 @@ def _band_order_and_cache(ck, w):
     else:
         ck.ok(o, "%d put site(s)" % (len(puts) + 1), instances=len(puts) + 1)
     common.finish_only_when_exhausted(ck, w, "C02.2f")
+    common.block_dir_fresh(ck, w, "C02.2g")
